@@ -140,7 +140,11 @@ func maskUnmarshalText[T ~int32](mask *T, tag int, text string) error {
 		var parsed int64
 		var err error
 		if strings.HasPrefix(part, "0x") || strings.HasPrefix(part, "0X") {
-			parsed, err = strconv.ParseInt(part[2:], 16, 32)
+			// Unregistered bits are written as unsigned 32 bits hex values (up to 0x80000000).
+			var u uint64
+			u, err = strconv.ParseUint(part[2:], 16, 32)
+			//nolint:gosec // this cast is safe as we are parsing a 32 bits value
+			parsed = int64(u)
 		} else {
 			parsed, err = strconv.ParseInt(part, 10, 32)
 			if err != nil {
